@@ -138,6 +138,9 @@ class LinearAlgebraMethods(object):
                 if current > biggest: # TODO: what if equal?
                     biggest = current
                     p[j] = k
+            if p[j] is None:
+                # every candidate pivot in this column is exactly zero
+                raise ZeroDivisionError('matrix is numerically singular')
             # swap rows according to p
             ctx.swap_row(A, j, p[j])
             if ctx.absmin(A[j,j]) <= tol:
